@@ -110,7 +110,7 @@ impl Cfg {
     ) -> Result<Cfg, Box<CfgError>> {
         let mut labels = HashMap::new();
         let mut nodes = Vec::new();
-        let mut current_labels = HashSet::new();
+        let mut current_labels = Vec::new();
         let mut all_labels = HashSet::new();
 
         let label_names = old_nodes.label_names();
@@ -155,7 +155,7 @@ impl Cfg {
         for node in old_nodes {
             match node {
                 ParserNode::Label(s) => {
-                    current_labels.insert(s.name.clone());
+                    current_labels.push(s.name.clone());
 
                     // Check for duplicate labels
                     if !all_labels.insert(s.name.clone()) {
@@ -172,20 +172,11 @@ impl Cfg {
                 ParserNode::Directive(_) => {}
                 _ => {
                     // If any of the labels are a function call, add a function entry node
-                    if current_labels
-                        .clone()
-                        .intersection(&call_names)
-                        .next()
-                        .is_some()
-                    {
+                    if current_labels.iter().any(|l| call_names.contains(l)) {
                         let is_interrupt = if let Some(ref p_call_names) = predefined_call_names {
                             // If any of the current_labels are in the predefined call names, then we need to add
                             // a boolean switch
-                            current_labels
-                                .clone()
-                                .intersection(p_call_names)
-                                .next()
-                                .is_some()
+                            current_labels.iter().any(|l| p_call_names.contains(l))
                         } else {
                             false
                         };
@@ -212,7 +203,7 @@ impl Cfg {
                         current_labels.clear();
 
                         // Add the node to the graph
-                        nodes.push(Rc::new(CfgNode::new(node, HashSet::new(), segment)));
+                        nodes.push(Rc::new(CfgNode::new(node, Vec::new(), segment)));
                     } else {
                         let rc_node =
                             Rc::new(CfgNode::new(node.clone(), current_labels.clone(), segment));
